@@ -132,6 +132,12 @@ fn speak_rules(rules: &'static std::thread::LocalKey<RefCell<SpeechRules>>, math
 }
 
 
+#[cfg(mathcat_verif)]
+thread_local!{
+    /// verification hook (observation only): how often `is_repetitive` removed an optional word together with the text in front of it
+    pub static VERIF_REPETITIVE_PREFIX_DROPPED: std::cell::Cell<usize> = const { std::cell::Cell::new(0) };
+}
+
 /// Converts its argument to a string that can be used in a debugging message.
 pub fn yaml_to_type(yaml: &Yaml) -> String {
     return match yaml {
@@ -891,6 +897,11 @@ impl<'r> ReplacementArray {
                             let prev = prev.trim_end().as_bytes();
                             if prev.len() > optional_word.len() &&
                                &prev[prev.len()-optional_word.len()..] == optional_word.as_bytes() {
+                                #[cfg(mathcat_verif)]
+                                if !optional[..start_index].trim().is_empty() {
+                                    // observation only: count the times text in front of the optional word is dropped with it
+                                    VERIF_REPETITIVE_PREFIX_DROPPED.with(|count| count.set(count.get() + 1));
+                                }
                                 return Some( optional_word_start_slice[optional_word.len() + OPTIONAL_INDICATOR_LEN..].trim_start() );
                             } else {
                                 return None;
